@@ -215,6 +215,11 @@ Fixpoint worker_loop (k : N) (fail : list N) (order : list N) (w : state * N) : 
 Definition worker (order : list N) (k : N) (fail : list N) (s : state) : state :=
   fst (worker_loop k fail (filter (fun i => memb i (mq s)) order) (s, 0)).
 
+(* number of tree-manager calls the run made; the context is cancelled once [k] calls have been made, so
+   [worker_calls order k fail s < k] says that the run was never cancelled *)
+Definition worker_calls (order : list N) (k : N) (fail : list N) (s : state) : N :=
+  snd (worker_loop k fail (filter (fun i => memb i (mq s)) order) (s, 0)).
+
 (* ------------------------------------------------------------------ start-up *)
 Definition ids_with_status (v : N) (s : state) : list N :=
   map e_id (filter (fun e => e_status e =? v) (ents s)).
@@ -404,6 +409,13 @@ Definition recorded_before_commit (o : op) : bool :=
 
 Definition is_restart (o : op) : bool := match o with OpRestart => true | _ => false end.
 
+(* a worker run that is not cancelled and whose tree manager does not fail *)
+Definition complete_worker (o : op) : bool :=
+  match o with
+  | OpWorker _ k [] => never <=? k
+  | _ => false
+  end.
+
 (* per id, before -> after *)
 Definition spec_id (o : op) (x : out) (i : N) (b a : obs) : bool :=
   (* durable status never decreases, an entry never disappears *)
@@ -418,6 +430,8 @@ Definition spec_id (o : op) (x : out) (i : N) (b a : obs) : bool :=
   && (if is_restart o then Bool.eqb (o_mem a) (2 <=? o_st a) else true)
   (* in-memory knowledge is sound: known => durable tombstone *)
   && (if o_mem a then 2 <=? o_st a else true)
+  (* an id that is queued (durably and in the deletion state) is fully deleted by a complete worker run *)
+  && (if complete_worker o && (o_st b =? 2) && o_mem b then o_st a =? 3 else true)
   (* create / put / fetch of an id that is tombstoned - before the operation, or by a deletion recorded at any stage
      of the operation before the creating transaction commits: "already deleted" (unless the tree is still stored
      locally and served from there), and nothing of it is stored by the operation *)
@@ -441,20 +455,28 @@ Fixpoint spec_ids (o : op) (x : out) (univ : list N) (b a : list obs) : bool :=
   | _, _, _ => false
   end.
 
-(* children follow: [links] = (child, parent) pairs of the roots used in the history.  After a restart, or after
-   an uncancelled worker run with a tree manager that does not fail, no child of a fully deleted parent is left
-   unmarked; and a child created while its parent is tombstoned is marked at once. *)
+(* children follow: [links] = (child, parent) pairs of the roots used in the history.  After a restart no child of a
+   fully deleted parent is left unmarked; a complete worker run (not cancelled, tree manager not failing) deletes,
+   together with every parent it had queued, the bound children of that parent that exist - whether or not they were
+   queued themselves (deleter.deleteBoundChildren: NotDeleted -> Deleted directly; by [spec_id] such a child is then
+   not advertised and has nothing stored); and a child created while its parent is tombstoned is marked at once. *)
 Fixpoint obs_of (univ : list N) (l : list obs) (i : N) : obs :=
   match univ, l with
   | j :: ur, o :: lr => if j =? i then o else obs_of ur lr i
   | _, _ => mkO 0 false 0 false
   end.
 
-Definition spec_children (o : op) (univ : list N) (links : list (N * N)) (a : list obs) : bool :=
+Definition spec_children (o : op) (univ : list N) (links : list (N * N)) (b a : list obs) : bool :=
   match o with
   | OpRestart =>
       forallb (fun cp => let c := obs_of univ a (fst cp) in let p := obs_of univ a (snd cp) in
                          if (3 <=? o_st p) && (1 <=? o_st c) then 2 <=? o_st c else true) links
+  | OpWorker _ _ _ =>
+      if complete_worker o then
+        forallb (fun cp => let pb := obs_of univ b (snd cp) in
+                           if (o_st pb =? 2) && o_mem pb && (1 <=? o_st (obs_of univ b (fst cp)))
+                           then o_st (obs_of univ a (fst cp)) =? 3 else true) links
+      else true
   | _ => true
   end.
 
@@ -480,7 +502,7 @@ Fixpoint spec_trace (univ : list N) (links : list (N * N)) (ops : list op) (b : 
   | [], [] => true
   | o :: r, (x, a) :: tr' =>
       let links' := link_of o x ++ links in
-      spec_ids o x univ b a && spec_children o univ links' a && spec_latechild o x univ b a
+      spec_ids o x univ b a && spec_children o univ links' b a && spec_latechild o x univ b a
       && spec_trace univ links' r a tr'
   | _, _ => false
   end.
